@@ -393,7 +393,25 @@ def run(chk, repo, tier):
                     'constructor on every path')
 
     # ---- R06.6 ----------------------------------------------------------
-    c01.linear_forms(chk, repo, rule='R06.6', rule_try='R06.6')
+    pset2, _, est2 = c01.find_registration(repo)
+    em = repo.methods(GD, est2)
+    for mname in ('get_CpoR', 'get_HoRT', 'get_SoR'):
+        f = em[mname]
+        tn = params(f)[1]
+        calls = [c for c in ast.walk(f) if isinstance(c, ast.Call)
+                 and isinstance(c.func, ast.Attribute)
+                 and c.func.attr == mname and dotted(c.func.value) != 'self']
+        ok = bool(calls) and all(
+            len(c.args) == 1 and isinstance(c.args[0], ast.Name)
+            and c.args[0].id == tn and not c.keywords for c in calls)
+        stores_T = [n for n in ast.walk(f) if isinstance(n, ast.Name)
+                    and n.id == tn and isinstance(n.ctx, ast.Store)]
+        chk.ob('R06.6', ok and not stores_T and not c01.has_try(f), GD, f,
+               key='own-T-to-constituents:' + mname,
+               what='%s hands its own T unchanged to every constituent\'s '
+                    '%s and has no handler that could swallow their range '
+                    'errors' % (mname, mname),
+               found='; '.join(src(c) for c in calls))
     # ---- R06.7 the wrapper's delegate enforces the wrapper's own range --------
     setup = repo.func(INC, 'ThermochemIncomplete._setup_correlation')
     built = []
